@@ -799,6 +799,14 @@ def bottom_up_family(maxdepth):
 
 
 def e2_bfs(depth, cap):
+    try:
+        return e2_bfs_(depth, cap, True)
+    except common.FingerprintTooFine:
+        return e2_bfs_(depth, cap, False)
+
+
+def e2_bfs_(depth, cap, use_fp):
+    refstates = set()
     seen = {(r_canon(RNode("root", "map", 1)), None): ()}
     frontier = collections.deque([()])
     trans = 0
@@ -827,7 +835,10 @@ def e2_bfs(depth, cap):
                     + [x.obj for x in r2.removed[-2:]])
             except Exception:  # noqa
                 fp = None
-            c = (r_canon(r2), fp)
+            refstates.add(r_canon(r2))
+            c = (r_canon(r2), fp if use_fp else None)
+            if use_fp:
+                common.fp_guard(len(seen), len(refstates), factor=4)
             if c not in seen:
                 if len(seen) >= cap:
                     capped = True
